@@ -412,6 +412,8 @@ struct Fut {
     ord: Ordering,
     reg_first: bool,
     polls: SArc<StdAtomicUsize>,
+    /// ready when the flag holds this value (0: any non-zero value)
+    want: usize,
 }
 impl std::future::Future for Fut {
     type Output = usize;
@@ -421,7 +423,7 @@ impl std::future::Future for Fut {
             self.sh.aws[self.aw].register_by_ref(cx.waker());
         }
         let v = self.sh.atoms[self.flag].get().load(self.ord);
-        if v != 0 {
+        if (self.want == 0 && v != 0) || (self.want != 0 && v == self.want) {
             return std::task::Poll::Ready(v);
         }
         if !self.reg_first {
@@ -441,6 +443,8 @@ struct RawFut {
     ready: usize,
     ord: Ordering,
     polls: SArc<StdAtomicUsize>,
+    /// the first flag counts as set when it holds this value (0: any non-zero value)
+    want: usize,
 }
 fn stash(sh: &Sh, slot: usize, w: std::task::Waker) {
     let old = {
@@ -460,7 +464,7 @@ impl std::future::Future for RawFut {
         // announce that the slots are filled (relaxed: orders nothing, the wakers just wait for it)
         self.sh.atoms[self.ready].get().store(1, Ordering::Relaxed);
         let v = self.sh.atoms[self.f1].get().load(self.ord);
-        if v == 0 {
+        if (self.want == 0 && v == 0) || (self.want != 0 && v != self.want) {
             return std::task::Poll::Pending;
         }
         if let Some(f2) = self.f2 {
@@ -852,6 +856,7 @@ fn run_thread(sh: SArc<Sh>, t: usize) {
                     ready: sh.idx[&format!("{}r", ins.o2)],
                     ord: ord(&ins.ord),
                     polls: polls.clone(),
+                    want: ins.v as usize,
                 };
                 let v = loom::future::block_on(f);
                 res = Some((v * 100 + polls.load(StdOrd::SeqCst)) as i64);
@@ -875,7 +880,7 @@ fn run_thread(sh: SArc<Sh>, t: usize) {
             }
             "blockon" => {
                 let polls = SArc::new(StdAtomicUsize::new(0));
-                let f = Fut { sh: sh.clone(), aw: oi(), flag: sh.idx[&ins.o2], ord: ord(&ins.ord), reg_first: ins.k == "reg-check", polls: polls.clone() };
+                let f = Fut { sh: sh.clone(), aw: oi(), flag: sh.idx[&ins.o2], ord: ord(&ins.ord), reg_first: ins.k == "reg-check", polls: polls.clone(), want: ins.v as usize };
                 let v = loom::future::block_on(f);
                 res = Some((v * 100 + polls.load(StdOrd::SeqCst)) as i64);
             }
